@@ -349,6 +349,7 @@ func (node *Node) Run(ctx context.Context) error {
 
 		node.outgoing.Open(100)
 		node.unconfTxChannel.Open(100)
+		node.txTracker.Start() // It is stopped when the previous connection is shut down
 
 		// Queue version message to start handshake
 		version := buildVersionMsg(node.config.UserAgent, int32(node.blocks.LastHeight()))
